@@ -101,6 +101,10 @@ template<int B> static void blocked_case(Tape& t, Ctx& c)
   int op = t.range(0, 3);
   std::vector<double> vals = gen_values(t, idx.size() * B, vcls), vv = gen_values(t, (size_t)(n * B), vcls);
   if(kind == 1) for(size_t k = 0; k < idx.size(); ++k) { bool allz = true; for(int j = 0; j < B; ++j) if(vals[k * B + j] != 0.0) allz = false; if(allz) vals[k * B] = 1.0; }   // slip normals are non-zero
+  // component-wise (partial) constraints: with ignore_nans a NaN filter value leaves that component unconstrained
+  bool nans = (kind != 1) && t.flag(1, 3);
+  if(nans) for(size_t k = 0; k < idx.size(); ++k) for(int j = 0; j < B; ++j) if(t.flag(1, 3)) vals[k * B + (size_t)j] = std::numeric_limits<double>::quiet_NaN();
+  c.desc.set("ignore_nans", nans); c.label(nans ? "nans:partial-constraints" : "nans:none");
   c.desc.set("filter", kind == 1 ? "slip" : "unit_blocked"); c.desc.set("block", B); c.desc.set("n", n); c.desc.set("idx", J(idx)); c.desc.set("vals", J(vals)); c.desc.set("v", J(vv));
   c.label(icls); c.label("block:" + std::to_string(B)); c.nontrivial = n >= 2 && !idx.empty();
   std::vector<char> con((size_t)n, 0); std::vector<size_t> slot((size_t)n, 0); for(size_t k = 0; k < idx.size(); ++k) { con[(size_t)idx[k]] = 1; slot[(size_t)idx[k]] = k; }
@@ -108,12 +112,12 @@ template<int B> static void blocked_case(Tape& t, Ctx& c)
   if(kind == 0)
   {
     c.desc.set("op", fop_name[op]); c.op = std::string(fop_name[op]) + "@unit_blocked"; c.label(std::string("op:") + fop_name[op]); c.announce();
-    UnitFilterBlocked<DT, IT, B> f((Index)n); for(size_t k = 0; k < idx.size(); ++k) f.add((Index)idx[k], blk(k));
+    UnitFilterBlocked<DT, IT, B> f((Index)n, nans); for(size_t k = 0; k < idx.size(); ++k) f.add((Index)idx[k], blk(k));
     V v((Index)n); vfill_all(v, vv); apply_op(f, v, op); std::vector<long double> r; vflat(v, r);
     for(long i = 0; i < n; ++i) for(int j = 0; j < B; ++j)
     {
       size_t q = (size_t)(i * B + j);
-      if(con[(size_t)i]) { long double want = (op <= 1) ? (long double)vals[slot[(size_t)i] * B + (size_t)j] : 0.0L; VF_CHECK(r[q] == want, fop_name[op] << ": constrained entry (" << i << "," << j << ") = " << (double)r[q] << " expected " << (double)want); }
+      if(con[(size_t)i] && !(nans && std::isnan(vals[slot[(size_t)i] * B + (size_t)j]))) { long double want = (op <= 1) ? (long double)vals[slot[(size_t)i] * B + (size_t)j] : 0.0L; VF_CHECK(r[q] == want, fop_name[op] << ": constrained entry (" << i << "," << j << ") = " << (double)r[q] << " expected " << (double)want); }
       else VF_CHECK(r[q] == (long double)vv[q], fop_name[op] << ": unconstrained entry (" << i << "," << j << ") changed");
     }
     std::string b1, b2; vbytes(v, b1); apply_op(f, v, op); vbytes(v, b2); VF_CHECK(b1 == b2, fop_name[op] << " is not idempotent");
@@ -142,11 +146,11 @@ template<int B> static void blocked_case(Tape& t, Ctx& c)
     Pat p = gen_pattern(t, 0, vcls, true, 9, 0, (int)n, (int)n); c.desc.set("A", p.json()); c.desc.set("op", "filter_mat"); c.op = "filter_mat@unit_blocked"; c.label("op:filter_mat");
     if(p.nnz() == 0) { c.label("skipped:entry-free-matrix"); c.nontrivial = false; c.announce(); return; }
     c.announce();
-    UnitFilterBlocked<DT, IT, B> f((Index)n); for(size_t k = 0; k < idx.size(); ++k) f.add((Index)idx[k], blk(k));
+    UnitFilterBlocked<DT, IT, B> f((Index)n, nans); for(size_t k = 0; k < idx.size(); ++k) f.add((Index)idx[k], blk(k));
     auto A = make_bcsr<DT, IT, B, B>(p); Dense D0 = dense_of(A); f.filter_mat(A); Dense D1 = dense_of(A);
     for(long i = 0; i < D0.r; ++i) for(long j = 0; j < D0.c; ++j) if(D0.st(i, j))
     {
-      if(!con[(size_t)(i / B)]) VF_CHECK(D1(i, j) == D0(i, j), "unconstrained block row " << i / B << " changed");
+      if(!con[(size_t)(i / B)] || (nans && std::isnan(vals[slot[(size_t)(i / B)] * B + (size_t)(i % B)]))) VF_CHECK(D1(i, j) == D0(i, j), "unconstrained block row " << i / B << " changed");
       else VF_CHECK(D1(i, j) == (i == j ? 1.0L : 0.0L), "filter_mat: constrained row " << i << " column " << j << " = " << (double)D1(i, j));
     }
   }
